@@ -465,6 +465,8 @@ def run(eng, run):
     check_oneshot(eng, run)
     check_err(eng, run)
     check_bufsize(eng, run)
+    from sa.analyses.arms import check_dead_arms
+    check_dead_arms(eng, run, "C05.arms", ("clients.udp", "clients.async_udp", "lowlevel.api_async.endpoints.datagram", "lowlevel.api_sync.endpoints.datagram", "lowlevel.api_async.servers.datagram", "protocol"), 6)
 
 
 # ---------------------------------------------------------------------------------------------- self-test corpus
